@@ -123,6 +123,9 @@ STATEFUL = {
     "partialdate": ("{{ '10:30' | date: '%Y-%m-%d %H:%M' }}|{{ '5 March' | date: '%Y-%m-%d' }}|{{ '23:59:59' | date: '%j %H' }}",
                     lambda now, d: "|".join([_fmt_dt(now, "%Y-%m-%d") + " 10:30", _fmt_dt(now, "%Y") + "-03-05",
                                              _fmt_dt(now, "%j") + " 23"])),
+    "sumtypes": ("{{ ints | sum }}|{{ floats | sum }}|{{ ints | sum }}|{{ 1 | plus: 1 }}|{{ 1.0 | plus: 1 }}|{{ mixed | sum }}|{{ '2' | plus: '2.0' }}",
+                 lambda now, d: "3|3.0|3|2|2.0|2.0|4.0"),
+    "strobj": ("[{{ bombs }}]|{{ bombs | join: ',' }}|{{ sobj }}", lambda now, d: "[1B3]|1,B,3|" + d["sobj"]["__strobj__"]),
     "nowtwice": ("{{ 'now' | date: '%s' }}-{{ 'now' | date: '%s' }}-{{ now | date: '%s' }}",
                  lambda now, d: f"{int(now)}-{int(now)}-{int(now)}"),
 }
@@ -144,12 +147,15 @@ PROBES = (
     "{{ 'Hello' | gettext }}|{{ 'one' | ngettext: 'many', 2 }}|{{ 1.5 | decimal }}|{{ 1 | money }}",
     "{% macro m a %}[{{ a }}]{% endmacro %}{% call m 1 %}{% cycle 'a', 'b' %}{% cycle 'a', 'b' %}",
     "{{ 'x' | date: '%Y' }}|{{ nothing | default: 'd' }}|{{ '<i>' | escape }}",
+    "{% assign locale = 'tlh' %}{{ 1234.5 | money }}|{{ 1234.5 | decimal }}|{{ 1234.5 | currency }}",
+    "{% include 'footer' %}",
+    "{{ nums2 | sum }}|{{ 1.5 | plus: 1 }}|{{ 2 | times: 2 }}",
 )
 
 CONFIG_KINDS = ("add_filter", "replace_filter", "del_filter", "add_tag", "globals_set", "globals_replace",
                 "translation_filters", "translation_filters_var", "translation_filters_default",
                 "loop_limit", "undefined", "trim", "suppress_blank", "output_limit", "replace_tag",
-                "context_depth", "namespace_limit", "auto_escape_on", "replace_json")
+                "context_depth", "namespace_limit", "auto_escape_on", "replace_json", "currency_de", "loader_add")
 
 
 class Violation(Exception):
@@ -232,6 +238,16 @@ def apply_config(env, op: dict) -> None:
         from liquid2.builtin import JSON
 
         env.filters["json"] = JSON(default=lambda o: "<obj>")
+    elif k == "currency_de":
+        from liquid2.builtin import Currency
+        from liquid2.builtin import Number
+
+        env.filters["money"] = Currency(default_locale="de")
+        env.filters["decimal"] = Number(default_locale="de")
+    elif k == "loader_add":
+        t = getattr(env.loader, "templates", None)
+        if isinstance(t, dict):     # the application adds a template to this environment's dict loader
+            dict.__setitem__(t, "footer", "FOOTER-" + str(op.get("v", "X")))
     elif k == "loop_limit":
         env.loop_iteration_limit = 3
     elif k == "output_limit":
@@ -500,6 +516,7 @@ class World:
         d["unsorted"] = [3, 1, 2]
         d["_lang"] = ("T", "FR", "DE", "JA")[spec["seed"] % 4] if spec.get("catalog") else None
         d["s2"] = "Tom & Jerry's"
+        d["ints"], d["floats"], d["mixed"] = [1, 2], [1.0, 2.0], [1, 1.0]
         d.update(spec.get("extra") or {})
         return d
 
@@ -659,7 +676,7 @@ class World:
         for src in PROBES:
             try:
                 t = env.from_string(src)
-                out.append(("ok", common.norm(t.render(translations=worlds.Catalog()))))
+                out.append(("ok", common.norm(t.render(translations=worlds.Catalog(), nums2=[1, 2.5]))))
             except Inconclusive:
                 raise
             except BaseException as exc:  # noqa: BLE001
@@ -740,7 +757,8 @@ def do_step(w: World, step: dict) -> None:
         if w.plan["envs"][ei].get("default_global"):
             # the process-wide default environment may be configured too (render-time settings only)
             if step["what"] not in ("globals_set", "add_filter", "replace_filter", "loop_limit", "undefined",
-                                    "suppress_blank", "output_limit", "replace_json", "translation_filters"):
+                                    "suppress_blank", "output_limit", "replace_json", "translation_filters",
+                                    "currency_de", "loader_add"):
                 return
         elif w.plan["envs"][ei]["loader"].startswith("c") and step["what"] in ("del_filter", "trim", "replace_tag"):
             # parse-time configuration: a caching loader legitimately keeps templates parsed
@@ -1183,7 +1201,7 @@ def gen_plan(seed: int, tier: str) -> dict:
             if dgi and rng.random() < 0.5:
                 ei = dgi[0]
                 what = rng.choice(["globals_set", "add_filter", "replace_filter", "loop_limit", "undefined",
-                                   "output_limit", "replace_json"])
+                                   "output_limit", "replace_json", "loader_add", "currency_de"])
                 # the module-level API before and after: same source seen twice
                 steps.append({"op": "oneshot", "id": nid(), "src": STATEFUL["gvprobe"][0], "prog": "gvprobe",
                               "mode": rng.choice("sa"), "data": data_spec()})
